@@ -314,3 +314,70 @@ def event_of(fl, node, kinds=('assign', 'aug', 'store', 'call', 'return')):
             if e.node is node:
                 return e
     return None
+
+
+class MergedReturn:
+    """All `return` statements of a function folded into one value: a decision
+    list guard(c1, v1, guard(c2, v2, ... v_last)) over the conditions under
+    which each is reached.  A function restructured from `x = a if c else b;
+    return x` into two returns folds to the same expression; an added early
+    exit (`if c: return cached`) shows up as an extra branch of the value."""
+    kind = 'return'
+    loops = ()
+    guards = ()
+
+    def __init__(self, value, last, n):
+        self.value = value
+        self.node = last.node
+        self.value_ast = last.value_ast
+        self.n = n
+
+
+def the_return(fl, what='return'):
+    rets = fl.of('return')
+    if not rets:
+        raise AnalysisError('no %s' % what)
+    if len(rets) == 1 and not [g for g in rets[0].guards if not g.early]:
+        return rets[0]
+    if any(r.loops for r in rets):
+        raise AnalysisError('expected exactly one %s, found %d (some inside loops)' % (what, len(rets)))
+    none = code(fl, 'None')
+    val = None
+    for r in reversed(rets):
+        pcs = [g for g in r.guards if not g.early and g.rf is not None]
+        v = r.value if r.value is not None else none
+        if not pcs:
+            val = v          # an unconditional return: anything after it is dead
+            continue
+        if val is None:
+            val = none       # falling off the end
+        for g in reversed(pcs):
+            v = fl.tab.atom('guard', (g.rf, v, val) if g.positive else (g.rf, val, v))
+        val = v
+    return MergedReturn(val, rets[-1], len(rets))
+
+
+def validated(g):
+    """an early-exit condition whose other side raises: input validation, not a shortcut"""
+    return g.early and g.exit == {'raise'}
+
+
+def unlicensed(fl, e, allow=()):
+    """Conditions on event e that an obligation has to account for: enclosing
+    ifs and earlier `return` / `continue` / `break` exits (a shortcut that skips
+    e).  Earlier exits that raise are validation and are left out, as are
+    conditions algebraically equal to an RF (or (RF, polarity)) in `allow`."""
+    out = []
+    for g in e.guards:
+        if validated(g):
+            continue
+        ok = False
+        for a in allow:
+            pos = None
+            if isinstance(a, tuple):
+                a, pos = a
+            if g.rf is not None and (pos is None or g.positive == pos) and fl.tab.equal(g.rf, a):
+                ok = True
+        if not ok:
+            out.append(g)
+    return out
